@@ -133,3 +133,21 @@ def ast_mag(node, env, time=0.0):
         return abs(ast_eval(node, env, time))
     except (OverflowError, ValueError):
         return float("inf")
+
+
+def ast_cond(node, env, time=0.0, delta=1e-8):
+    """Sum over the identifiers of |x_i * df/dx_i| for the expression AS WRITTEN (one-sided relative perturbation of each input):
+    how far the value moves when an input is off by one part in 1/eps.  An input that is itself computed (a parameter assigned
+    by a rule) legitimately differs in the last bits between two correct evaluations, and the value may differ by a few eps
+    times this number; an algebraic re-arrangement that makes the evaluation worse than that is not covered by it."""
+    try:
+        f0 = ast_eval(node, env, time)
+        tot = 0.0
+        for nm in set(ast_names(node)):
+            def env2(n_, nm=nm):
+                v = env(n_)
+                return v * (1.0 + delta) if n_ == nm else v
+            tot += abs(ast_eval(node, env2, time) - f0) / delta
+        return tot
+    except (ref.Undefined, KeyError, OverflowError, ValueError, ZeroDivisionError):
+        return float("inf")
